@@ -27,10 +27,8 @@ func newRegView(state *state.State) *regView {
 }
 
 func (v *regView) lines() int {
+	// All registers including the instruction pointer are printed.
 	regCnt := v.state.Regs.Len()
-	if _, ok := v.state.Regs.Load(expr.IPKey, expr.Width8); ok {
-		regCnt--
-	}
 
 	lines := regCnt / regsPerLine
 	if regCnt%regsPerLine > 0 {
